@@ -66,12 +66,12 @@ func (k KeySpec) Value() interface{} {
 }
 
 type C14Case struct {
-	Mode   string   `json:"mode"` // layer | compare | golden
-	A      KeySpec  `json:"a"`
-	B      KeySpec  `json:"b"`
-	BF     uint     `json:"bf,omitempty"`
-	Golden string   `json:"golden,omitempty"` // section:index of the golden file
-	Tree   *HistCase `json:"tree,omitempty"`  // mode "tree": a generated history whose persisted nodes are compared with the reference encoder
+	Mode   string    `json:"mode"` // layer | compare | golden
+	A      KeySpec   `json:"a"`
+	B      KeySpec   `json:"b"`
+	BF     uint      `json:"bf,omitempty"`
+	Golden string    `json:"golden,omitempty"` // section:index of the golden file
+	Tree   *HistCase `json:"tree,omitempty"`   // mode "tree": a generated history whose persisted nodes are compared with the reference encoder
 }
 
 var intTypes = []string{"int", "int8", "int16", "int32", "int64"}
@@ -133,7 +133,7 @@ var allKeyTypes = append(append(append([]string{}, intTypes...), uintTypes...), 
 func genC14(t *rapid.T, tier string) C14Case {
 	c := C14Case{Mode: rapid.SampledFrom([]string{"layer", "layer", "layer", "compare", "compare", "tree"}).Draw(t, "mode")}
 	if c.Mode == "tree" {
-		h := genHist(t, tier, core.GenOpts{NoCustomV1: true, Caches: []string{"none", "big"}},
+		h := genHist(t, tier, core.GenOpts{NoCustomV1: true, Caches: []string{"none", "big"}, BigOneIn: 15},
 			core.OpWeights{core.OpInsert: 10, core.OpInsertNew: 20, core.OpUpdate: 5, core.OpDelete: 10, core.OpPersist: 6, core.OpReload: 2}, 25, 40, 30, 1)
 		c.Tree = &h
 		return c
@@ -158,7 +158,7 @@ func genC14(t *rapid.T, tier string) C14Case {
 
 type goldenTree struct {
 	Cfg     core.Config       `json:"cfg"`
-	Keys    []int             `json:"keys"` // pool indices inserted in this order
+	Keys    []int             `json:"keys"`    // pool indices inserted in this order
 	Entries [][2]string       `json:"entries"` // marshaled key, marshaled value in ascending key order
 	Root    mast.Root         `json:"root"`
 	Nodes   map[string]string `json:"nodes"` // name -> base64(bytes)
@@ -177,13 +177,13 @@ type goldenCompare struct {
 }
 
 type goldenFile struct {
-	Note     string          `json:"note"`
-	Blake2b  [][2]string     `json:"blake2b"` // input (hex), digest name
+	Note     string      `json:"note"`
+	Blake2b  [][2]string `json:"blake2b"` // input (hex), digest name
 	Defaults struct {
-		NewRootNil  mast.Root `json:"new_root_nil"`
-		InMemoryBF  uint      `json:"in_memory_branch_factor"`
-		DefaultBF   int       `json:"default_branch_factor_const"`
-		V1, Bin     string
+		NewRootNil mast.Root `json:"new_root_nil"`
+		InMemoryBF uint      `json:"in_memory_branch_factor"`
+		DefaultBF  int       `json:"default_branch_factor_const"`
+		V1, Bin    string
 	} `json:"defaults"`
 	Layers   []goldenLayers  `json:"layers"`
 	Compares []goldenCompare `json:"compares"`
